@@ -6,7 +6,9 @@
      2 pick   : n P (cpu core socket node)*P                                            obs [len ids..]
      3 cpuset : budget policy K old*K P procs Q (lab k cpus*k)*Q resKind R res*R sysKind S sys*S
                                                        obs [len root.. len pod.. len ctr..]
-     4 quota  : budget cap cur                                                          obs [quota] *)
+     4 quota  : budget cap cur                                                          obs [quota]
+     5 history: cap init N (op arg)*N   op 1 quota round(budget) 2 recover 3 reset(value) 4 cpuset round
+                                                       obs cpu.cfs_quota_us after every step *)
 From Coq Require Import List ZArith Bool.
 From Verif Require Import Lib.Wire Gen.Gen_consts C10.Model C10.Spec.
 Import ListNotations.
@@ -61,6 +63,14 @@ Definition dec_obs3 (o : list Z) : option (list Z * list Z * list Z) :=
   | _ => None
   end.
 
+(* ---------- kind 5 *)
+Definition dec_qop (l : list Z) : qop * list Z :=
+  let k := nth0 0 l in let a := nth0 1 l in
+  ((if k =? 1 then QAdjust a else if k =? 2 then QRecover else if k =? 3 then QReset a else QCpuset),
+   skipn 2 l).
+Definition dec_hist (l : list Z) : Z * Z * list qop :=
+  (nth0 0 l, nth0 1 l, fst (decode_seq dec_qop (skipn 2 l))).
+
 Definition run_case (inp : list Z) : list Z :=
   match inp with
   | 1 :: l =>
@@ -70,6 +80,7 @@ Definition run_case (inp : list Z) : list Z :=
   | 3 :: l =>
       let '(a, b, c) := adjust (dec_adjust l) in encode_list a ++ encode_list b ++ encode_list c
   | 4 :: l => [quota_new (nth0 0 l) (nth0 1 l) (nth0 2 l)]
+  | 5 :: l => let '(cap, init, ops) := dec_hist l in hist cap (init, false) ops
   | _ => [-1]
   end.
 
@@ -94,6 +105,7 @@ Definition prop_case (inp obs : list Z) : Z :=
       | [q] => quota_code (nth0 0 l) (nth0 1 l) (nth0 2 l) q
       | _ => 409
       end
+  | 5 :: l => let '(cap, init, ops) := dec_hist l in hist_code cap init ops obs
   | _ => 9
   end.
 
@@ -119,6 +131,11 @@ Definition nontrivial_case (inp : list Z) : bool :=
       | _ => false
       end
   | 4 :: l => negb (quota_new (nth0 0 l) (nth0 1 l) (nth0 2 l) =? nth0 2 l)
+  | 5 :: l =>
+      (* a quota round that writes, after the file was reset or recovered earlier in the history *)
+      let '(cap, init, ops) := dec_hist l in
+      existsb (fun op => match op with QAdjust _ => true | _ => false end) ops
+      && existsb (fun op => match op with QRecover => true | QReset _ => true | _ => false end) ops
   | _ => false
   end.
 
@@ -134,5 +151,6 @@ Definition wf_case (inp : list Z) : bool :=
   | 2 :: l => let '(_, ps) := dec_pick l in nodupb (map cpu ps)
   | 3 :: l => nodupb (map cpu (a_procs (dec_adjust l)))
   | 4 :: _ => true
+  | 5 :: _ => true
   | _ => false
   end.
